@@ -83,6 +83,7 @@ def run(tier, seed):
     drv, err = build_driver()
     if err:
         res.broken.append(("model driver build", err))
+        drv = NO_MODEL
     names = (st.get("modules", {}).get("Avx512Mat", {}) or {}).get("names", [])
     T = kernel_table()
     missing = [k for k in T if k not in names]
